@@ -22,7 +22,10 @@ OUTCOME = {None: 0, "IndexError": 1, "ValueError": 2, "KeyError": 3, "TypeError"
 
 def load_manifest():
     with open(MANIFEST) as fh:
-        return json.load(fh)
+        m = json.load(fh)
+    if any(f["ret"].get("k") == "builder" for f in m["functions"]):
+        _record_commands("cnfgen.graphs", "DirectedGraph", "add_edge")
+    return m
 
 
 # ------------------------------------------------------------------ canonical values (same text as the driver)
@@ -62,6 +65,9 @@ def canon(v, ty):
         n = len(ty["tails"])
         return "(" + ",".join([canon(v[:len(v) - n], {"k": "list", "e": ty["e"]})] +
                               [canon(x, t) for x, t in zip(v[len(v) - n:], ty["tails"])]) + ")"
+    if k == "builder":
+        ctor, log = BUILDER_VIEW[ty["cls"]](v)
+        return "(" + canon(ctor, ty["ctor"]) + "," + canon(log, {"k": "list", "e": ty["args"]}) + ")"
     raise TypeError("no canonical form for " + k)
 
 
@@ -73,6 +79,29 @@ def canon_obj(obj, cls, manifest):
         v = getattr(obj, f)
         parts.append("{}={}".format(f, canon_obj(v, ty["cls"], manifest) if ty["k"] == "obj" else canon(v, ty)))
     return "{}({})".format(cls, ",".join(parts))
+
+
+def _record_commands(modname, cls, cmd):
+    """the harness process only: remember the commands sent to objects of `cls` (no source hook)"""
+    mod = importlib.import_module(modname)
+    C = getattr(mod, cls)
+    orig = getattr(C, cmd)
+    if getattr(orig, "_py2lean", False):
+        return
+
+    def wrapped(self, *a, **kw):
+        r = orig(self, *a, **kw)
+        self.__dict__.setdefault("_py2lean_log", []).append(tuple(a))
+        return r
+    wrapped._py2lean = True
+    setattr(C, cmd, wrapped)
+
+
+def _digraph_view(D):
+    return D.number_of_vertices(), list(D.__dict__.get("_py2lean_log", []))
+
+
+BUILDER_VIEW = {"DirectedGraph": _digraph_view}
 
 
 # ------------------------------------------------------------------ encodings (tools/py2lean_driver.py)
@@ -411,6 +440,9 @@ def word_lit(rng, ctx):
 
 
 HINTS = {
+    ("dag_path", "length"): lambda rng, ctx: rng.choice([0, 1, 2, 3, 7, 20, -1, -5]),
+    ("dag_complete_binary_tree", "height"): lambda rng, ctx: rng.choice([0, 1, 2, 3, 4, 6, -1]),
+    ("dag_pyramid", "height"): lambda rng, ctx: rng.choice([0, 1, 2, 3, 4, 7, -1]),
     ("WordOfIndicesVariables", "n"): word_n,
     ("WordOfIndicesVariables", "k"): word_k,
     ("WordOfIndicesVariables", "wordtype"): word_type,
